@@ -3,6 +3,7 @@ package plugins
 import (
 	"fmt"
 	"net/http"
+	"strings"
 )
 
 // toStringMap converts a generic map to map[string]string if possible
@@ -47,6 +48,18 @@ func init() {
 		if err != nil {
 			return nil, err
 		}
+		// net/http silently leaves out a response header whose name or value is not valid and
+		// refuses to send a request with such a header (every request would end in a 502)
+		for _, headers := range []map[string]string{setMap, reqSetMap} {
+			for k, v := range headers {
+				if !validHeaderName(k) {
+					return nil, fmt.Errorf("%q is not a valid header name", k)
+				}
+				if !validHeaderValue(v) {
+					return nil, fmt.Errorf("header %s: the value contains a control character", k)
+				}
+			}
+		}
 
 		return func(next http.Handler) http.Handler {
 			return http.HandlerFunc(func(w http.ResponseWriter, r *http.Request) {
@@ -62,4 +75,33 @@ func init() {
 			})
 		}, nil
 	})
+}
+
+// validHeaderName reports whether s is a token (RFC 9110 5.6.2), which is what a header
+// field name has to be
+func validHeaderName(s string) bool {
+	if s == "" {
+		return false
+	}
+	for i := 0; i < len(s); i++ {
+		c := s[i]
+		switch {
+		case c >= 'a' && c <= 'z', c >= 'A' && c <= 'Z', c >= '0' && c <= '9':
+		case strings.IndexByte("!#$%&'*+-.^_`|~", c) >= 0:
+		default:
+			return false
+		}
+	}
+	return true
+}
+
+// validHeaderValue reports whether s can be sent as a header field value: no control
+// characters other than the horizontal tab (a line break would end the header line)
+func validHeaderValue(s string) bool {
+	for i := 0; i < len(s); i++ {
+		if c := s[i]; (c < ' ' && c != '\t') || c == 0x7f {
+			return false
+		}
+	}
+	return true
 }
